@@ -13,6 +13,7 @@ NOTE_PARTIAL = ("the theorems in coq/fs/%s.v are about named mechanisms of the l
                 "proved lemmas + trace-exact correspondence + spec oracle on the implementation")
 
 PROOF_LEVEL = {
+    "C16": "C16_history (mirroring of every FAT copy, truthful-stays-truthful, unknown-stays-unknown, hint unknown or in range - after every call of every history of API calls) and C16_history_flush (the FAT32 information sector after a flush/close of a dirty file holds exactly the in-memory record: the number of free FAT entries when the count was truthful, untouched when unknown) are theorems about the layer-B model; the mount code establishes the hint range (C16_mount_hint_in_range, D40 repaired); no call panics or fails for want of space while a free entry exists whatever record was found at mount (C03_history, PrAlloc/PrCount). Recorded finding: stale-hint-kept",
     "C03": "C03_history / C03_after_every_call / C03_sound_after_history are theorems about the layer-B model for every history of API calls (all 26 operations, every outcome incl. refusals, DiskFull and NotEnoughSpace half-way failures): the global invariant fs_inv - directory tree over the raw disk, unique names, clean tail after the end marker, dot entries, chains in range / acyclic / end-marked / never through free-reserved-bad entries / pairwise disjoint / long enough for the size, pending chains of open files - holds after every call. Scope stated in the theorems: one mounted volume, no device faults, names outside the recorded class D29, fewer than 2^32 handle generations. The tie to the crate is the trace-exact correspondence; the extracted decider fs_inv_b (sound: fs_inv_b_sound) and the independent python checker both run on the implementation's images",
     "C04": "C04_history is a theorem about the layer-B model for every history of API calls: the complete device-write list lies in the regions of the volume (FAT copies, FAT16 root region, data area, FAT32 information sector; C04_regions_not_outside: never MBR, boot sector, other partition, past the last cluster); C04_mount_layout / C04_open_volume_layout derive the region map from the checks of the mount code; per-call byte frames (slot, FAT entry, high nibble, info-sector fields, data range) are the C04_*_frame theorems. Recorded finding: the partition size is not compared with the BPB total (D38)",
     "C05": "C05_history (after any history of API calls with no file left open, in-use clusters = clusters on the chains of the live tree), C05_used_is_tree_and_pending (with open files: plus their pending chains), C05_delete_frees, C05_capacity (exactly free_entries allocations succeed, then NotEnoughSpace with nothing changed), C05_fill_free_refill for every number of cycles, and mgr_write_spec (Ok / DiskFull with exactly the stored prefix readable / NotEnoughSpace) are theorems about the layer-B model for all inputs",
@@ -1325,6 +1326,14 @@ def check_C16(run, replay=None):
                "open $r %s RWC -> $d" % hx("LAST.B"), "write $d %d 3" % bpc, "close $d",
                "closedir $r", "closevol $v"]
         env.add_script("info%03d" % j, path, (1, 4, 4), ops, 5000, (), meta)
+        if gname == "f32_oor":
+            # the recorded finding stale-hint-kept: overwrite in place (no allocation), flush
+            img2, meta2 = fsgen.build_image(rng, geo, populate=1, ensure_big=True)
+            path2, dev2 = env.new_image(img2, "infokeep%d" % j)
+            meta2 = dict(meta2); meta2["dev0"] = dev2
+            ops2 = ["openvol %d -> $v" % meta2["slot"], "openroot $v -> $r", "open $r %s RWA -> $t" % hx("BIGGER.BIN"),
+                    "seekstart $t 3", "write $t 4 7", "flush $t", "close $t", "closedir $r", "closevol $v"]
+            env.add_script("infokeep%03d" % j, path2, (1, 4, 4), ops2, 5000, (), meta2)
     env.run_all(writes=True)
     bad = 0
     for sc in env.scripts:
@@ -1371,11 +1380,17 @@ def check_C16(run, replay=None):
                             out.append("op %d (%s): stored free count %d, expected %d (mounted %d, free entries %d -> %d)" % (k, " ".join(op[:2]), c, want, mounted_cnt, mounted, free_now))
                         elif 0 <= want < 0xFFFFFFFF and c == 0xFFFFFFFF and mounted_cnt != 0xFFFFFFFF:
                             pass
-                    if not (nx == 0xFFFFFFFF or 2 <= nx < g.N + 2 or nx == nxt0):
-                        out.append("op %d: stored next-free hint %d is outside the volume (2..%d)" % (k, nx, g.N + 1))
+                    if not (nx == 0xFFFFFFFF or 2 <= nx < g.N + 2):
+                        if nx == nxt0:
+                            # recorded finding: an out-of-range hint found at mount is ignored in memory (D40) but stays
+                            # on the medium until the first allocation stores a new one
+                            out.append("op %d: the next-free field still holds the out-of-range value %d found at mount: stale-hint-kept" % (k, nx))
+                        else:
+                            out.append("op %d: stored next-free hint %d is outside the volume (2..%d)" % (k, nx, g.N + 1))
                 if len(out) > 4:
                     break
         if out:
-            bad += report_oracle(run, env, sc, out, "FAT mirror / FAT32 free-space record violated")
+            bad += report_oracle(run, env, sc, out, "FAT mirror / FAT32 free-space record violated",
+                                 known=lambda p: "stale-hint-kept" if p.endswith(": stale-hint-kept") else None)
     common_tail(run, env, run.coverage.get("theorems", []))
     return finish(run, env, "C16", "allocation/truncation/deletion histories on volumes with 1 and 2 FATs and information sectors starting correct, unknown, stale-zero, stale-high, out-of-range hint; oracle = byte equality of every FAT copy after each call that wrote, stored free count delta == free-entry delta since mount after flush/close/volume close, hint unknown or inside the volume, no panic")
